@@ -5,7 +5,8 @@ correspondence: every built-in command (CSV libraries) and the harness' test com
                 producer/consumer pairings (fuzzy/non-fuzzy, data/non-data), single faults at every position of valid models;
                 real Program.from_source + run() (stub bodies logging execution and side effects) vs the model's load + pre-pass
 oracles:        well-formed models are accepted and run; every injected fault is rejected with its specific error carrying the line of the
-                offending command/argument, with nothing executed and no effect performed
+                offending command/argument, with nothing executed and no effect performed; every spelling of a number as text is a Number
+                (and text that is none is not); user-defined Parameter kinds refining one another as declared output / wanted kind (oracle only)
 """
 import os
 
@@ -166,6 +167,158 @@ def eems2_faults(ctx, model, tmp, env, classes):
             ctx.fail("ill-formed EEMS 2.0 model (%s): rejected only after executing %r" % (kind, res["log"]), sc.describe())
 
 
+# numbers as text: what a quoted value, or an unquoted one the lexer does not read as a number (1e3, 1_000), hands to a Number parameter.  A Number is what
+# int() or float() reads: integer literals, decimals, exponent forms - whole-valued or not, signed or not.  The rest is no number.
+NUMBER_TEXTS = ["12", "+3", "-12", " 7 ", "1_000", "00", "-0", "9007199254740993", "2.5", ".5", "5.", "1.0", "1000.0", "-0.0", "0.0", "3.14159", "1_0.2_5", "1e3", "1E3", "10e2", "1e5", "+1e+3", "-2E+2",
+                "5e-1", "1.5e1", "2.5E-1", "1e-3", "25e-1", "100e-2", "0e0", "1.0e0", "12345678901234567890.0", "1e22", "\t8\n"]
+NUMBER_WORDS = ["1e3", "1E3", "10e2", "1_000", "2e0"]          # written without quotes
+NOT_NUMBER_TEXTS = ["abc", "1e", "e3", "1,5", "1e3.0", "0x10", "1__0", "", "1 2", "--1", "1e3x", "1.2.3", "_1", "1e+", "."]
+
+
+def number_spellings(rng, classes, env, tmp):
+    """every Number parameter (and every list of numbers) of every command, given each spelling of a number / each text that is no number"""
+    from mpilot import params as P
+    pairs = []
+    for cls in classes:
+        for name, p in cls.inputs.items():
+            if type(p) is P.NumberParameter:
+                pairs.append((cls, name, False))
+            elif type(p) is P.ListParameter and type(p.value_type) is P.NumberParameter:
+                pairs.append((cls, name, True))
+    out = []
+    spellings = [(t, None) for t in NUMBER_TEXTS] + [(Name(t), None) for t in NUMBER_WORDS] + [(t, "ParameterNotValid") for t in NOT_NUMBER_TEXTS]
+    for k, (text, err) in enumerate(spellings):
+        for cls, name, listy in (pairs[k % len(pairs)], pairs[(5 * k + 3) % len(pairs)], rng.choice(pairs)):
+            call = valid_call(rng, cls, env)
+            v = [1, text] if listy else text
+            args = [(n, x) for n, x in call[2] if n != name] + [(name, v)]
+            cmds = producers(env) + [(call[0], call[1], args)]
+            sc = Scenario(cmds, wd=tmp, libs=LIBS)
+            out.append((sc, None if err is None else (err, sc.lines[len(cmds) - 1][1][len(args) - 1]), "number-text:%s.%s" % (cls.name, name)))
+    return out
+
+
+KINDS_LIB = "mpverif_kinds"
+# kind -> the kind it refines (a plug-in library's own Parameter classes next to the built-in ones; none of them is below String / Number, whose
+# documented mutual acceptance is a rule of its own)
+KIND_PARENT = {"Parameter": None, "Data": "Parameter", "Boolean": "Parameter", "List": "Parameter", "Tuple": "Parameter", "Grid": "Data", "FineGrid": "Grid", "Series": "Data",
+               "Flag": "Boolean", "Points": "List", "Token": "Parameter", "SubToken": "Token"}
+KINDS_SRC = '''
+import numpy
+from mpilot import params
+from mpilot.commands import Command
+
+LOG = []
+PARENT = %r
+KINDS = {"Parameter": params.Parameter, "Data": params.DataParameter, "Boolean": params.BooleanParameter, "List": params.ListParameter, "Tuple": params.TupleParameter}
+VALUES = {"Data": lambda: numpy.ma.array([1.5, 2.0]), "Boolean": lambda: True, "List": lambda: [1, 2], "Tuple": lambda: {"k": "v"}, "Parameter": lambda: "anything", "Token": lambda: "tok"}
+
+
+def root_value(kind):
+    while kind not in VALUES:
+        kind = PARENT[kind]
+    return VALUES[kind]()
+
+
+def define(kind):
+    if kind not in KINDS:
+        define(PARENT[kind])
+        KINDS[kind] = type(kind + "Parameter", (KINDS[PARENT[kind]],), {"__module__": __name__, "__doc__": "a refinement of " + PARENT[kind]})
+    return KINDS[kind]
+
+
+def make(kind):
+    def execute(self, **kw):
+        LOG.append(self.result_name)
+        return root_value(kind)
+    return type(Command)("Make" + kind, (Command,), {"__module__": __name__, "inputs": {}, "output": define(kind)(), "execute": execute})
+
+
+def want(kind):
+    def execute(self, **kw):
+        LOG.append(self.result_name)
+        for c in ([kw["One"]] if "One" in kw else []) + list(kw.get("Many", [])):
+            c.result
+        return True
+    return type(Command)("Want" + kind, (Command,), {"__module__": __name__, "output": params.BooleanParameter(), "execute": execute, "inputs": {
+        "One": params.ResultParameter(define(kind)(), required=False), "Many": params.ListParameter(params.ResultParameter(define(kind)()), required=False)}})
+
+
+for _k in sorted(PARENT):
+    make(_k)
+    want(_k)
+''' % (KIND_PARENT,)
+
+
+def kind_hierarchies(ctx, tmp, env):
+    """"every referenced result has the declared output kind" over kinds that refine one another (a plug-in's Grid is Data, its FineGrid is a Grid; Data is not a
+    Grid): every producer kind x every wanted kind, given directly and through a list, consumer before and after the producer in the file, built-in
+    producers and consumers included.  Accepted exactly when the producer's declared kind is the wanted kind or refines it; otherwise ResultTypeNotValid
+    naming the result, on the consumer's argument line, before anything has executed.  Real bodies (the model has no user-defined kinds: oracle only)"""
+    import contextlib, io, sys, types
+    from mpilot.program import Program
+    if KINDS_LIB not in sys.modules:
+        m = types.ModuleType(KINDS_LIB)
+        sys.modules[KINDS_LIB] = m
+        exec(compile(KINDS_SRC, KINDS_LIB, "exec"), m.__dict__)
+    m = sys.modules[KINDS_LIB]
+    libs = progrun.EEMS_LIBS + (KINDS_LIB,)
+
+    def is_a(k, w):
+        while k is not None:
+            if k == w:
+                return True
+            k = KIND_PARENT[k]
+        return False
+    kinds = sorted(KIND_PARENT)
+    # (producer command, its kind), (consumer command, argument, list?, wanted kind)
+    producers_ = [("Make" + k, [], k) for k in kinds] + [("EEMSRead", [("InFileName", env["in"]), ("InFieldName", "a")], "Data")]
+    consumers_ = [("Want" + k, arg, listy, k) for k in kinds for arg, listy in (("One", False), ("Many", True))] + \
+                 [("Copy", "InFieldName", False, "Data"), ("Sum", "InFieldNames", True, "Data"), ("EEMSWrite", "OutFieldNames", True, "Data")]
+    for pcmd, pargs, pk in producers_:
+        for ccmd, arg, listy, wk in consumers_:
+            for consumer_first in (False, True):
+                extra = [("OutFileName", "kinds_out.csv")] if ccmd == "EEMSWrite" else []
+                cons = ("T", ccmd, extra + [(arg, [Name("Src")] if listy else Name("Src"))])
+                cmds = [("Other", "MakeToken", []), ("Src", pcmd, pargs)]
+                cmds = ([cons] + cmds) if consumer_first else (cmds + [cons])
+                sc = Scenario(cmds, wd=tmp, libs=libs, blank={0: 1, len(cmds) - 1: 2})
+                line = sc.lines[0 if consumer_first else len(cmds) - 1][1][-1]
+                del m.LOG[:]
+                p = None
+                try:
+                    with contextlib.redirect_stdout(io.StringIO()):
+                        p = Program.from_source(sc.source, libraries=libs, working_dir=tmp)
+                        p.run()
+                    outcome, exc = "ok", None
+                except BaseException as e:
+                    outcome, exc = progrun.classify(e), e
+                ran = list(m.LOG) + ([n for n, c in p.commands.items() if c.is_finished and n not in m.LOG] if p is not None else [])
+                wrote = os.path.exists(os.path.join(tmp, "kinds_out.csv"))
+                if wrote:
+                    os.remove(os.path.join(tmp, "kinds_out.csv"))
+                ctx.case("kinds " + sc.source, sample={"kind": "kind-hierarchy", "source": sc.source, "impl": outcome})
+                ctx.count("kind:kind-hierarchy")
+                desc = dict(sc.describe(), producer_kind=pk, wanted_kind=wk, refines=dict((k, v) for k, v in KIND_PARENT.items() if v))
+                if is_a(pk, wk):
+                    ctx.count("kind_hierarchy_wellformed")
+                    if outcome != "ok":
+                        ctx.fail("well-formed model rejected (%s): the result of %s is declared %s, which is %s %s as %s wants" % (
+                            outcome, pcmd, pk, "the kind" if pk == wk else "a refinement of", wk, ccmd), desc)
+                    elif sorted(ran) != ["Other", "Src", "T"]:
+                        ctx.fail("well-formed model accepted, but run() executed %r" % sorted(ran), desc)
+                else:
+                    want = "mp:ResultTypeNotValid:%d" % line
+                    if outcome == "ok":
+                        ctx.fail("ill-formed model accepted and executed (%r): %s wants a %s result, the result of %s is declared %s, which is no %s" % (ran, ccmd, wk, pcmd, pk, wk), desc)
+                    elif outcome != want:
+                        ctx.fail("ill-formed model (%s wants %s, %s delivers %s): reported %s, expected %s" % (ccmd, wk, pcmd, pk, outcome, want), desc)
+                    elif getattr(exc, "result", None) != "Src":
+                        ctx.fail("ResultTypeNotValid names %r; the offending result is Src" % (getattr(exc, "result", None),), desc)
+                    if outcome != "ok" and (ran or wrote):
+                        ctx.fail("ill-formed model (%s wants %s, %s delivers %s): rejected (%s) only after executing %r" % (ccmd, wk, pcmd, pk, outcome, ran), desc)
+
+
 def tree(root):
     out = []
     for d, dirs, files in os.walk(root):
@@ -218,6 +371,7 @@ def run(ctx):
             else:
                 sc = Scenario(cmds[:-1] + [(call[0], call[1], call[2] + [("Bogus", 1)])], wd=tmp, libs=LIBS)
                 scs.append((sc, None, "extra-allowed:" + cls.name))
+    scs += number_spellings(rng, [c for c in classes if c.name != "NoOut"], env, tmp)
     # faults at program level, at every position of valid models
     for _ in range(ctx.budget(6, 200)):
         n = rng.randrange(2, 6)
@@ -416,6 +570,7 @@ def run(ctx):
         elif second["log"] or second["effects"]:
             ctx.fail("a model naming a file that no longer exists is rejected only after executing %r" % second["log"], sc.describe())
     eems2_faults(ctx, model, tmp, env, classes)
+    kind_hierarchies(ctx, tmp, env)
     return ctx.finish(
         rule="scenarios = producers (EEMSRead, CvtToFuzzy, opaque) + one call of each of the %d command classes with valid arguments, then the same "
              "with each parameter replaced by each wrong kind of value / removed / an undeclared parameter added; unknown command, duplicate result, "
